@@ -704,6 +704,9 @@ func TestSmallScopeExhaustive(t *testing.T) {
 			masked := side == ref.SideServer
 			prefix := ref.Build(seq, masked)
 			for _, ext := range []bool{false, true} {
+				if ext && len(seq) >= 4 {
+					continue // the deepest level runs the plain state and three entry points only (time)
+				}
 				st := ref.EndState{Side: side, Extended: ext, Fragmented: frag}
 				for op := byte(0); op < 16; op++ {
 					for _, fin := range []bool{false, true} {
@@ -723,6 +726,9 @@ func TestSmallScopeExhaustive(t *testing.T) {
 									for _, entry := range []string{"Reader", "Reader+Discard", "ReadMessage", "ReadData", "ReadText", "ReadBinary", "NextReader"} {
 										if ext && (entry == "ReadText" || entry == "ReadBinary") {
 											continue // these helpers hard-wire the plain side state
+										}
+										if len(seq) >= 4 && entry != "Reader" && entry != "ReadMessage" && entry != "ReadData" {
+											continue
 										}
 										s := scenario{Frames: frames, Bad: len(prefix), Broken: broken, Side: side, Extended: ext, Entry: entry, BufSize: 2, AttachExt: rsv != 0 && !ext}
 										if (int(op)+len(seq))%2 == 0 {
@@ -745,7 +751,7 @@ func TestSmallScopeExhaustive(t *testing.T) {
 		}
 	})
 	hx.EvalN(int(n))
-	hx.Part(fmt.Sprintf("every valid prefix of length<=%d over the 24-letter alphabet x every invalid frame of opcode(16) x fin x len{0,126} x rsv{0,1} x masked, x 2 sides x extended{0,1} x 6 entry points", depth), n, true)
+	hx.Part(fmt.Sprintf("every valid prefix of length<=%d over the 24-letter alphabet x every invalid frame of opcode(16) x fin x len{0,126} x rsv{0,1} x masked, x 2 sides x extended{0,1} x 7 entry points (prefixes of length 4: plain state, 3 entry points)", depth), n, true)
 }
 
 // TestLargeScale: the offending frame arrives after a valid part the random
